@@ -48,6 +48,8 @@ type loopInfo struct {
 
 // FT translates one SSA function into a passive-form VC and its obligations.
 type FT struct {
+	assertLines map[*Clause][]int
+	assertFired map[string]bool
 	eng     *Engine
 	fn      *ssa.Function
 	key     string
@@ -156,7 +158,7 @@ func (ft *FT) typeInv(t Term, typ types.Type, st *State) Term {
 		nx := ft.get(st, "$next")
 		return and(app("<=", "0", app("sl-base", t)), app("<", app("sl-base", t), nx),
 			app("<=", "0", app("sl-off", t)), app("<=", "0", app("sl-len", t)), app("<=", app("sl-len", t), app("sl-cap", t)),
-			app("<=", app("sl-cap", t), "4611686018427387904"), app("<=", app("sl-off", t), "4611686018427387904"),
+			app("<=", app("sl-cap", t), "1152921504606846976"), app("<=", app("sl-off", t), "1152921504606846976"),
 			implies(eq(app("sl-base", t), "0"), eq(app("sl-cap", t), "0")))
 	case *types.Struct:
 		_ = u
@@ -794,6 +796,26 @@ func (ft *FT) run() {
 	for _, b := range order {
 		ft.block(b, st0)
 	}
+	// a pointer held by an interface-typed parameter refers to an object that existed at entry
+	// (stated last, as axioms, because the pointer types boxed are only known after translation)
+	next0 := ft.get(st0, "$next")
+	var ifaceParams []Term
+	for _, p := range fn.Params {
+		if isIface(p.Type()) {
+			ifaceParams = append(ifaceParams, ft.env[p][0])
+		}
+	}
+	for _, fv := range fn.FreeVars {
+		if isIface(fv.Type()) {
+			ifaceParams = append(ifaceParams, ft.env[fv][0])
+		}
+	}
+	for _, v := range ifaceParams {
+		for _, pb := range ft.d.ptrBoxes {
+			u := app(pb.unbox, v)
+			ft.d.axiom("ifaceparam "+v+" "+pb.unbox, implies(eq(app("dyn", v), num(int64(pb.id))), and(app("<=", "0", u), app("<", u, next0))))
+		}
+	}
 }
 
 func (ft *FT) block(b *ssa.BasicBlock, st0 *State) {
@@ -885,6 +907,7 @@ func (ft *FT) block(b *ssa.BasicBlock, st0 *State) {
 		if _, ok := ins.(*ssa.Phi); ok {
 			continue
 		}
+		ft.assertAt(ins, st)
 		// curGuard shrinks after a call that may panic: the rest of the block runs only if it returned
 		ft.instr(ins, st, ft.curGuard)
 	}
@@ -1110,4 +1133,60 @@ func (ft *FT) litFact(lit Term) {
 	fname := "spec!" + sf.PkgName + "." + sf.Name
 	ft.d.fun(fname, []Sort{"Str"}, "Bool")
 	ft.d.axiom("lit "+fname+" "+lit, app(q(fname), lit))
+}
+
+// assertAt places the ghost assertions of the contract (assertat "text"#k expr) before the first instruction of the
+// source line they name.
+func (ft *FT) assertAt(ins ssa.Instruction, st *State) {
+	if ft.con == nil || len(ft.con.AssertAt) == 0 {
+		return
+	}
+	if ft.assertLines == nil {
+		// the lines of this function, in source order, that contain each clause's text
+		ft.assertLines = map[*Clause][]int{}
+		ft.assertFired = map[string]bool{}
+		for _, a := range ft.con.AssertAt {
+			seen := map[int]bool{}
+			for _, b := range ft.fn.Blocks {
+				for _, i := range b.Instrs {
+					if !i.Pos().IsValid() {
+						continue
+					}
+					p := ft.eng.fset.Position(i.Pos())
+					if !seen[p.Line] && strings.Contains(ft.eng.fileLine(p.Filename, p.Line), a.Loc) {
+						seen[p.Line] = true
+						ft.assertLines[a] = append(ft.assertLines[a], p.Line)
+					}
+				}
+			}
+			sort.Ints(ft.assertLines[a])
+		}
+	}
+	if !ins.Pos().IsValid() {
+		return
+	}
+	line := ft.eng.fset.Position(ins.Pos()).Line
+	for _, a := range ft.con.AssertAt {
+		ls := ft.assertLines[a]
+		hit := false
+		for i, l := range ls {
+			if l == line && (a.Nth == 0 || a.Nth == i+1) {
+				hit = true
+			}
+		}
+		key := fmt.Sprintf("%p/%d", a, line)
+		if !hit || ft.assertFired[key] {
+			continue
+		}
+		ft.assertFired[key] = true
+		a.sites++
+		ctx := ft.specCtx(st, ft.entry)
+		ctx.local = ft.localResolver(ft.curBlk, false, nil, nil, ctx.local)
+		t, err := ctx.boolExpr(a.Expr)
+		if err != nil {
+			ft.errf("assertat %q: %v", a.Text, err)
+			continue
+		}
+		ft.oblige("assert", token.NoPos, a.Text+" @ "+ft.srcText(ins.Pos()), ft.curGuard, t, true)
+	}
 }
